@@ -150,7 +150,7 @@ PROPS = {
         unit("c11-watch", "cert", ["cert/c11_test.go"], "^TestVerifC11Watch", engines=SCHED + ["vhook"], rewrite=[{"files": ["cert/watch.go"], "opts": ["-sel", "time.Sleep=vhook.Sleep"]}]),
         unit("c11-sched", "cert", ["cert/c11_test.go", "cert/c11_issue_test.go"], "^TestVerifC11Sched", engines=SCHED + ["vhook"], race=True, sched_env={"GOMAXPROCS": "1"}, shards={"quick": 1, "thorough": 16},
              rewrite=[{"files": ["cert/store.go"], "opts": ["-imports", "-stmt", "-only", "SetCertificates,certstore,getCertificate"]}, {"files": ["cert/source.go"], "opts": ["-imports", "-go", "-chan", "-only", "TLSConfig"]}, {"files": ["cert/vault_pki_source.go"], "opts": ["-imports", "-go", "-chan", "-only", "Issue"]}]),
-    ], layers={"quick": ["c11-select", "c11-publish", "c11-listeners", "c11-load", "c11-watch", "c11-sched", "c11-issue"], "thorough": ["c11-select", "c11-publish", "c11-listeners", "c11-load", "c11-watch", "c11-sched", "c11-issue"]}),
+    ], layers={"quick": ["c11-select", "c11-publish", "c11-listeners", "c11-load", "c11-watch", "c11-pathsource", "c11-sched", "c11-issue"], "thorough": ["c11-select", "c11-publish", "c11-listeners", "c11-load", "c11-watch", "c11-pathsource", "c11-sched", "c11-issue"]}),
     "C19": dict(level="exploration", engine="benum",
         technique="bounded-exhaustive configuration product through transport.SetConfig and main.newHTTPProxy, plus a causal timeout scenario matrix",
         level_text="All 3^5 combinations of the five proxy transport options are pushed through the real transport.SetConfig and the three ways fabio builds transports (default, skip-verify, per-route host override) and read back field by field; the response-header timeout is additionally exercised end to end through ServeHTTP against an upstream that holds its headers until the harness releases it, an upstream address that swallows connection attempts, and a websocket upgrade that is answered late; the five options are also loaded through config.Load next to other time options.",
@@ -224,7 +224,7 @@ LAYER_UNIT = {"c06-sched": "c06", "c03-select": "c03", "c03-lookuphost": "c03", 
               "c07-request": "c07", "c07-response": "c07", "c07-wire": "c07", "c07-history": "c07", "c08-headers": "c08", "c08-websocket": "c08", "c09-tunnels": "c09", "c09-proxyline": "c09-sockets", "c09-websocket": "c09-ws",
               "c10-sni": "c10", "c12-rules": "c12-rules", "c13-inputs": "c13", "c13-sched": "c13", "c14-registrations": "c14", "c14-multi": "c14", "c14-watch": "c14", "c15-sources": "c15-config",
               "c15-robust": "c15-config", "c15-junk": "c15-config", "c16-calls": "c16", "c16-history": "c16", "c19-config": "c19", "c19-behaviour": "c19", "c19-history": "c19", "c20-fields": "c20-logger", "c20-e2e": "c20-formatters",
-              "c20-formats": "c20-logger", "c20-history": "c20-logger", "c20-atoi": "c20-logger", "c01-health": "c01-health", "c01-config": "c01-health", "c01-watch": "c01-health", "c11-publish": "c11-select", "c11-issue": "c11-sched"}
+              "c20-formats": "c20-logger", "c20-history": "c20-logger", "c20-atoi": "c20-logger", "c01-health": "c01-health", "c01-config": "c01-health", "c01-watch": "c01-health", "c11-publish": "c11-select", "c11-pathsource": "c11-watch", "c11-issue": "c11-sched"}
 
 def layer_unit(pid, layer):
     layer = (layer or "").replace(".race", "")
